@@ -284,16 +284,16 @@ func (l *LVal) AsExpr(rootT *Ty) *Expr {
 }
 
 type Stmt struct {
-	K     string // decl define assign opassign incdec if for ret retnamed
-	X     string
-	T     *Ty
-	E     *Expr
-	Xs    []string
-	LVs   []*LVal
-	RootT *Ty    // opassign / incdec: type of the root variable
-	Op    string // opassign: operator name (add, sub, ..., shl, shr); incdec: add / sub
-	Then  []*Stmt
-	Else  []*Stmt
+	K      string // decl define assign opassign incdec if for ret retnamed
+	X      string
+	T      *Ty
+	E      *Expr
+	Xs     []string
+	LVs    []*LVal
+	RootT  *Ty    // opassign / incdec: type of the root variable
+	Op     string // opassign: operator name (add, sub, ..., shl, shr); incdec: add / sub
+	Then   []*Stmt
+	Else   []*Stmt
 	ElseIf bool // Else is a single `if` statement rendered as `else if`
 	// for
 	Lo, Hi, Step int
